@@ -341,6 +341,44 @@ pub fn inventory_lean(repo: &str) -> String {
             .collect::<Vec<_>>()
             .join(",\n"),
     );
+    o.push_str("]\n\n");
+    // the flag bits of `MessDetectorCharFlags` and the order of the detector vector (model: Md.lean)
+    let structs = std::fs::read_to_string(format!("{}/src/md/structs.rs", repo)).unwrap_or_default();
+    let mut flags: Vec<(String, u32)> = vec![];
+    for l in blank(&structs).lines() {
+        let t = l.trim();
+        if let Some(rest) = t.strip_prefix("const ") {
+            if let Some((name, val)) = rest.split_once('=') {
+                let v: String = val.trim().trim_end_matches(';').replace('_', "");
+                if let Some(bin) = v.strip_prefix("0b") {
+                    if let Ok(x) = u32::from_str_radix(bin, 2) {
+                        if x.count_ones() == 1 {
+                            flags.push((name.trim().to_string(), x.trailing_zeros()));
+                        } else {
+                            flags.push((name.trim().to_string(), 9999));
+                        }
+                    }
+                }
+            }
+        }
+    }
+    o.push_str("def mdFlags : List (Name × Nat) := [\n");
+    o.push_str(&flags.iter().map(|(n, b)| format!("  ({}, {}) /- {} -/", lean_name(n), b, n)).collect::<Vec<_>>().join(",\n"));
+    o.push_str("]\n\n");
+    let md = std::fs::read_to_string(format!("{}/src/md.rs", repo)).unwrap_or_default();
+    let mut dets: Vec<String> = vec![];
+    for l in blank(&md).lines() {
+        let t = l.trim();
+        if let Some(rest) = t.strip_prefix("Box::<") {
+            if let Some((name, tail)) = rest.split_once('>') {
+                if tail.starts_with("::default()") {
+                    dets.push(name.to_string());
+                }
+            }
+        }
+    }
+    o.push_str("def mdDetectors : List Name := [\n");
+    o.push_str(&dets.iter().map(|n| format!("  {} /- {} -/", lean_name(n), n)).collect::<Vec<_>>().join(",\n"));
     o.push_str("]\n\nend Charset.Inv\n");
     o
 }
